@@ -3,6 +3,7 @@ package main
 import (
 	"fmt"
 	"go/ast"
+	"go/constant"
 	"go/token"
 	"go/types"
 	"os"
@@ -51,6 +52,9 @@ type Program struct {
 
 	srcFuncsOnce sync.Once
 	srcFuncs     []*ssa.Function // first-party functions incl. anonymous ones
+
+	tables   map[*ssa.Global]map[string]constant.Value
+	tablesOK map[*ssa.Global]bool
 }
 
 func repoDir() string {
@@ -318,4 +322,89 @@ func (p *Program) InfoFor(fn *ssa.Function) *types.Info {
 		return pkg.TypesInfo
 	}
 	return nil
+}
+
+// constTable returns the entries of a package-level map variable that is
+// initialised by a composite literal with constant keys (and constant or
+// empty-struct values) and is never stored to outside the package initialiser.
+func (p *Program) constTable(g *ssa.Global) (map[string]constant.Value, bool) {
+	if p.tables == nil {
+		p.tables = map[*ssa.Global]map[string]constant.Value{}
+		p.tablesOK = map[*ssa.Global]bool{}
+	}
+	if ok, done := p.tablesOK[g]; done {
+		return p.tables[g], ok
+	}
+	p.tablesOK[g] = false
+	if g.Pkg == nil || !isFirstParty(g.Pkg.Pkg.Path()) {
+		return nil, false
+	}
+	// never written outside init
+	for _, fn := range p.SrcFuncs() {
+		if fn.Name() == "init" {
+			continue
+		}
+		written := false
+		allInstrs(fn, func(in ssa.Instruction) {
+			switch x := in.(type) {
+			case *ssa.Store:
+				if x.Addr == ssa.Value(g) {
+					written = true
+				}
+			case *ssa.MapUpdate:
+				if u, ok := x.Map.(*ssa.UnOp); ok && u.X == ssa.Value(g) {
+					written = true
+				}
+			}
+		})
+		if written {
+			return nil, false
+		}
+	}
+	rel := strings.TrimPrefix(g.Pkg.Pkg.Path(), modPath+"/")
+	pkg := p.Pkg(rel)
+	if pkg == nil {
+		return nil, false
+	}
+	for _, f := range pkg.Syntax {
+		for _, d := range f.Decls {
+			gd, ok := d.(*ast.GenDecl)
+			if !ok || gd.Tok != token.VAR {
+				continue
+			}
+			for _, sp := range gd.Specs {
+				vs := sp.(*ast.ValueSpec)
+				for i, id := range vs.Names {
+					if id.Name != g.Name() || i >= len(vs.Values) {
+						continue
+					}
+					cl, ok := vs.Values[i].(*ast.CompositeLit)
+					if !ok {
+						return nil, false
+					}
+					out := map[string]constant.Value{}
+					for _, el := range cl.Elts {
+						kv, ok := el.(*ast.KeyValueExpr)
+						if !ok {
+							return nil, false
+						}
+						ktv := pkg.TypesInfo.Types[kv.Key]
+						if ktv.Value == nil {
+							return nil, false
+						}
+						vtv := pkg.TypesInfo.Types[kv.Value]
+						if vtv.Value != nil {
+							out[ktv.Value.ExactString()] = vtv.Value
+						} else {
+							out[ktv.Value.ExactString()] = constant.MakeBool(true) // presence only (struct{}{} sets)
+						}
+					}
+					p.tables[g] = out
+					p.tablesOK[g] = true
+					return out, true
+				}
+			}
+		}
+	}
+	return nil, false
 }
